@@ -246,3 +246,29 @@ Definition C16_failing_clause (s : list chan_op) (tr : list chan_obs) : nat :=
   if negb (fifo_ok s tr) then 1 else if negb (send_err_ok s tr) then 2
   else if negb (wake_ok s tr) then 3 else if negb (wake_once_ok s tr) then 4
   else if negb (end_ok s tr) then 5 else 0.
+
+(* ---- what FIFO / exactly-once means in terms of the trace alone (used in C16_fifo_prefix,
+   C16_fifo_complete): the values of the successful sends, and the values the polls yielded ---- *)
+Fixpoint sent_ok (s : list chan_op) (tr : list chan_obs) : list Z :=
+  match s, tr with
+  | o :: s', ob :: tr' =>
+      match o, o_ret ob with
+      | Send _ v, RSent true => v :: sent_ok s' tr'
+      | _, _ => sent_ok s' tr'
+      end
+  | _, _ => []
+  end.
+
+Fixpoint received (s : list chan_op) (tr : list chan_obs) : list Z :=
+  match s, tr with
+  | o :: s', ob :: tr' =>
+      match o, o_ret ob with
+      | PollRecv _, RPoll (Item v) => v :: received s' tr'
+      | _, _ => received s' tr'
+      end
+  | _, _ => []
+  end.
+
+(* was the receiver handle dropped by the script? *)
+Definition drops_receiver (s : list chan_op) : bool :=
+  existsb (fun o => match o with DropReceiver => true | _ => false end) s.
